@@ -4,6 +4,7 @@ CONSTANTS
     MaxCerts = 2
     PerBagLegacy = 4
     PerBagGov = 2
+    FlagEvery = 5
 INIT Init
 NEXT Next
 INVARIANT VariantSane
@@ -13,3 +14,5 @@ INVARIANT OneSideBreaks
 INVARIANT CertAlgebra
 INVARIANT Signs
 INVARIANT EraShape
+INVARIANT FlagIrrelevant
+INVARIANT FlagTwin
